@@ -23,7 +23,7 @@ pub static PROP: PropDef = PropDef {
         "initiator and direction of a StreamId are observed through Display (the accessors are private)",
     ],
     tape_len: 24,
-    random_cases: |t| t.pick(3_000_000, 60_000_000),
+    random_cases: |t| t.pick(6_000_000, 200_000_000),
     run_tape,
     exhaustive: Some(exhaustive),
     run_direct: Some(run_direct),
